@@ -204,7 +204,8 @@ def one_run(seed, run, force_config=None, overrides=None, max_diag=3):
             if dd:
                 i = dd[rng.randrange(len(dd))]
                 plan["faults"] = [f for f in plan["faults"] if f["op"] != i]
-                plan["faults"].append({"op": i, "step": rng.randint(1, op_len[i]), "kind": "async_exc"})
+                plan["faults"].append({"op": i, "step": rng.randint(1, op_len[i]),
+                                       "kind": "async_exc" if rng.random() < 0.65 else "async_err"})
         env, sim, trace = c01.run_sim(program, st, plan, rng=rng)
         res["steps"] = sim.clock
         res["switches"] = sim.switches
